@@ -17,5 +17,8 @@ func TestVerifReplay(t *testing.T) {
 		"Verif_C09_Comment":      Verif_C09_Comment,
 		"Verif_C09_GoDirective":  Verif_C09_GoDirective,
 		"Verif_C09_Snippets":     Verif_C09_Snippets,
+		"Verif_C11_TypeLit":      Verif_C11_TypeLit,
+		"Verif_C11_ShadowNames":  Verif_C11_ShadowNames,
+		"Verif_C11_Dispatch":     Verif_C11_Dispatch,
 	})
 }
